@@ -30,6 +30,9 @@ class RuleView:
         if rule in self.mapping:
             self.rep.inconclusive(self.mapping[rule], *a, **k)
 
+    def require(self, cond, msg):
+        self.rep.require(cond, msg)
+
 
 class Report:
     def __init__(self, pid, tier, level, seed=0):
